@@ -117,7 +117,12 @@ Section Interp.
       else inr (bl b, bu b)
     else inr (bl b, bu b).
 
-  Definition hquantile (q : Q) (h : hist) : res :=
+  (* [overwrite] = true models the code before "fix: promql: histogram_quantile interpolates in
+     the last bucket when the sum is NaN" (e11e8e804f), whose NaN-detection loop
+     `for it.Next() { bucket = it.At(); count += bucket.Count }` assigned the OUTER variable:
+     with a NaN sum and buckets left to iterate, the interpolation used the LAST bucket of the
+     histogram (unadjusted bounds, its count) instead of the bucket holding the rank. *)
+  Definition hquantile_gen (overwrite : bool) (q : Q) (h : hist) : res :=
     if Qlt_bool q 0 then R NInf
     else if Qlt_bool 1 q then R PInf
     else if Qeq_bool (h_count h) 0 then RNaN
@@ -135,12 +140,8 @@ Section Interp.
           if Qlt_bool cum rank then (if sum_nan h then RNaN else R u)
           else
             let rank' := if fwd then rank - (cum - bc b) else cum - rank in
-            (* the NaN-detection loop `for it.Next() { bucket = it.At(); count += bucket.Count }`
-               assigns the OUTER variable: with a NaN sum and buckets left to iterate, the
-               interpolation below uses the LAST bucket of the histogram (unadjusted bounds,
-               its count) instead of the bucket holding the rank *)
             let '(l2, u2, c2) :=
-              match sum_nan h, rest with
+              match overwrite && sum_nan h, rest with
               | true, _ :: _ => let b2 := last rest b in (bl b2, bu b2, bc b2)
               | _, _ => (l, u, bc b)
               end in
@@ -149,6 +150,9 @@ Section Interp.
               if Qeq_bool rank' 0 then RNaN else interp_inf custom l2 u2 (Qle_bool 0 rank')
             else interp_q custom l2 u2 (rank' / c2)
       end.
+
+  Definition hquantile : Q -> hist -> res := hquantile_gen false.
+  Definition hquantile_old : Q -> hist -> res := hquantile_gen true.
 
   (* ---- HistogramFraction ---- *)
   Record fstate := mkFS {
